@@ -114,7 +114,10 @@ def record(args):
                          collective_penalty_scale=cscale, point_penalty=pfam, point_penalty_scale=pscale,
                          min_segment_length=m, max_segment_length=int(rng.integers(m, 12))).fit(X)
             y = det.predict(X)
-            Xf = pd.DataFrame(X, index=pd.RangeIndex(3, 3 + n))
+            # `icolumns` are POSITIONS: whatever the frame's column labels (names, integers that are not the positions,
+            # a re-ordered frame), transform marks the columns at those positions
+            labels = [list(range(p)), [f"c{j}" for j in range(p)], list(range(1, p + 1)), [int(x) for x in rng.permutation(p)]][int(rng.integers(0, 4))]
+            Xf = pd.DataFrame(X, index=pd.RangeIndex(3, 3 + n), columns=labels)
             dense = det.transform(Xf)
         except Exception as e:
             out.append({"id": rid, "error": repr(e)[:200], "n": n, "p": p, "X": X.tolist()})
